@@ -240,6 +240,9 @@ def main_c15(tier, seed):
     C15_KINDS = ("feat", "mat", "lattice", "feat", "mat", "lattice", "tiny", "sparse", "literal", "gridcut", "zeroarcs", "asym", "asym", "bootstrap")
     insts = [gen_instance(rng, nmax=8 if tier == "quick" else 12, nu=rng.choice([0, 0, 1, 2, 3, 5]), kinds=C15_KINDS) if i % 8 else gen_mixed_dtype_instance(rng)
              for i in range(N)]
+    # tie-heavy grids with class-structured labels and an EMPTY unlabeled set (labeled samples conquered by another class): the
+    # result must be the supervised one, labels included
+    insts += [gen_instance(rng, nmax=8 if tier == "quick" else 12, nu=0, kinds=("gridcut",)) for _ in range(20 if tier == "quick" else 800)]
     terms, expect, sts = [], [], []
     for it in insts:
         rk = ranker_for(it)
